@@ -47,7 +47,7 @@ def analyse_disconnect_impls(f, rep):
             s = [ev for i, ev in pathq.calls(p, "remove") if "QueueInner" in ev.name and len(ev.args) > 1 and ev.args[1] == ("arg", 2)]
             removes_table = bool(t)
             # the stream removal may be guarded by `if let Some(inner)`: it must happen on the Some path
-            q_none = any(e[0] == "discr" and c == ("eq", 0) and any(isinstance(x, tuple) and x and x[0] == "field" and "fair_queue" in str(x[2]) for x in walk_expr(e[1])) for (e, c, _, _) in p.conds)
+            q_none = any(e[0] == "discr" and c == ("eq", 0) and any(isinstance(x, tuple) and x and x[0] == "field" and "QueueInner" in str(x[3]) for x in walk_expr(e[1])) for (e, c, _, _) in p.conds)
             if has_queue and not q_none:
                 removes_stream = bool(s)
                 rep.check(bool(s), "R16.1", "R16.1|%s|removes-queued-stream" % ty,
@@ -117,7 +117,7 @@ def run(ctx, f, rep):
         conveyed = 0
         ended_paths = 0
         for p in pathq.paths(f, b, max_visits=2):
-            inner = [(i, ev) for i, ev in enumerate(p.events) if ev.kind == "call" and short(ev.name) == "poll_next"]
+            inner = [(i, ev) for i, ev in enumerate(p.events) if ev.kind == "call" and short(ev.name) in fq.INNER_POLL]
             for (i, ev) in inner:
                 pr = ev.result
                 none_arm = any(e[0] == "discr" and c == ("eq", 0) and e[1][0] == "field" and e[1][1][0] == "downcast" and e[1][1][1] == pr for (e, c, _, _) in p.conds)
